@@ -821,6 +821,11 @@ pub fn replay_main(engine_of: &dyn Fn(&str) -> Option<Box<dyn Engine>>, path: &s
                 println!("recorded        : [{}] {}", o.class, o.msg);
             }
             println!("{}", if same { "REPRODUCED (same violation class)" } else { "FAILS DIFFERENTLY" });
+            let known = load_known();
+            if let Some(k) = known_match(&known, &case.property, &f) {
+                println!("KNOWN-FINDING: property={} {} (replay={})", case.property, k.what, path);
+                return 0;
+            }
             println!("VIOLATION property={} replay={}", case.property, path);
             1
         }
